@@ -8,7 +8,9 @@
   * a node that is not primary (a connected replica, a node that knows no primary) never proceeds
     with an import, a halt-lock grant, a forwarded transaction or a handoff: those requests are
     not answered 200 there, and neither they nor a halt-lock release change anything (a release
-    of a lock the node does not hold is answered 200 and is a no-op: not an error by the property).
+    of a lock the node does not hold is answered 200 and is a no-op: not an error by the property);
+  * a request to /halt, /tx or /stream that carries the node's own id as its sender — in any
+    spelling of the number — is not answered 200.
   The generator brackets every `http` line with `state`, `ltx`, `locks`, `dbs`.
 -/
 import LiteFSVerif.Driver.Util
@@ -72,6 +74,11 @@ def check (st : St) (op obs : String) : St × String :=
     else if path == "/stream" && method == "POST" && obs.startsWith "status=200" && !(words obs).contains "ready" then
       (st, s!"FAIL a stream answered 200 but broke before its ready frame: {op.take 100}") else
     let code := statusOf obs
+    -- a request that names the node itself as its sender (in any spelling of the id) is one the
+    -- node's role never allows on the halt, forwarding and stream endpoints
+    if ((words op).getD 5 "").startsWith "own" && code == 200 && ["/halt", "/tx", "/stream"].contains path &&
+        (method == "POST" || method == "DELETE") then
+      (st, s!"FAIL a request carrying the node's own id was accepted on {method} {path}: {op.take 100}") else
     if (st.role == "replica" || st.role == "orphan") && code == 200 &&
         method == "POST" && ["/halt", "/import", "/tx", "/handoff"].contains path then
       (st, s!"FAIL a node that is not primary ({st.role}) answered 200 to {method} {path}: {op.take 100}") else
